@@ -23,7 +23,8 @@ _name = st.lists(_seg, min_size=1, max_size=4).map("-".join)
 _vr = st.one_of(st.from_regex(r"[A-Za-z0-9._+~^]{1,8}", fullmatch=True),
                 st.sampled_from(["2.18", "11.fc20", "1.el7_9", "0.1.rc9.el7cp", "1~beta^git1", "1.rpm", "20200101", "1.x86_64", "7"]))
 _epoch = st.one_of(st.none(), st.none(), st.integers(0, 3), st.integers(0, 10 ** 12))
-_prefix = st.one_of(st.just(""), st.just(""), st.sampled_from(["Packages/", "/mnt/compose/Server/x86_64/os/Packages/g/", "a-b/c.d-1.2/",
+_prefix = st.one_of(st.just(""), st.just(""), st.sampled_from(["https://example.com/repo/os/Packages/g/", "host:/srv/compose/", "2020-01-01T10:00/", "file:///mnt/x/", "a:b-1:2/"]),
+                    st.sampled_from(["Packages/", "/mnt/compose/Server/x86_64/os/Packages/g/", "a-b/c.d-1.2/",
                                                                "./", "../x/", "/", "Server/x86_64/os/Packages/g/glibc-2.18-11.fc20.x86_64.rpm/"]),
                     st.lists(st.from_regex(r"[A-Za-z0-9._+-]{1,6}", fullmatch=True), min_size=1, max_size=3).map(lambda p: "/".join(p) + "/"))
 
